@@ -176,6 +176,8 @@ func (w *Reconciler) sync(
 func (w *Reconciler) syncJobTasks(
 	ctx context.Context, rj *execution.Job, cfg *configv1alpha1.JobExecutionConfig, trace *utiltrace.Trace,
 ) (*execution.Job, error) {
+	cachedRj := rj
+
 	taskMgr, err := w.tasks.ForJob(rj)
 	if err != nil {
 		return rj, errors.Wrapf(err, "cannot create task manager")
@@ -212,6 +214,14 @@ func (w *Reconciler) syncJobTasks(
 	rj = newRj
 	trace.Step("Final update status for tasks done")
 
+	// Tasks were created or adopted in this sync: record them in the Job's status
+	// first, which triggers another sync, before deleting any task. Otherwise a
+	// failed status update makes the Job forget a task that it has just deleted,
+	// and it would create a second task for the same attempt.
+	if hasUnrecordedTasks(cachedRj, tasks) {
+		return rj, nil
+	}
+
 	// Check if any tasks exceed pending timeout.
 	newRj, err = w.handlePendingTasks(ctx, rj, tasks, cfg)
 	if err != nil {
@@ -245,6 +255,21 @@ func (w *Reconciler) syncJobTasks(
 	trace.Step("Final update status for tasks done")
 
 	return rj, nil
+}
+
+// hasUnrecordedTasks returns true if any of the tasks is not listed in the given
+// Job's status.
+func hasUnrecordedTasks(rj *execution.Job, tasks []jobtasks.Task) bool {
+	recorded := sets.NewString()
+	for _, ref := range rj.Status.Tasks {
+		recorded.Insert(ref.Name)
+	}
+	for _, task := range tasks {
+		if !recorded.Has(task.GetName()) {
+			return true
+		}
+	}
+	return false
 }
 
 // getTask returns the task for the given TaskRef from the cache, or nil if it
